@@ -25,7 +25,7 @@ REAL_VS_STUB = {"real": ["incomplete_cooperative.regret", "numpy.save/load", "js
 ASSUMPTIONS = ["terminal values are non-negative float32 (the property's precondition)",
                "float32 arithmetic: one-step comparison tolerance 2e-4*scale absolute + 1e-4 relative",
                "rows of cumulative_regret / cumulative_strategy are indexed by the documented rank of a node"]
-PROBES = ["old_checkpoint_loaded_again", "limit_below_boundary", "limit_above_number_of_coalitions", "restart_then_iterate", "n5", "plus",
+PROBES = ["leaves_listed_in_another_order", "old_checkpoint_loaded_again", "limit_below_boundary", "limit_above_number_of_coalitions", "restart_then_iterate", "n5", "plus",
           "all_zero_values", "uniform_fallback_at_nonroot"]
 TIERS = {
     "quick": {"runs": 10000, "wall": 40, "batch": 6, "shrink_s": 40},
@@ -133,11 +133,20 @@ def run(sim: Sim) -> None:
                               "strategy_equal": np.array(other.cumulative_strategy).tobytes() == s0})
                 del other
             vals = draw_terminal(sim, len(leaves))
-            iterate_checked(sim, m, vals, leaves, leaf_ids, internal, n, noc, L, plus, viable, ctx)
+            # the caller may list the leaves (and their values) in any order, a different one on every call
+            if len(leaves) > 1 and sim.flip(1, 2, "permute-leaves"):
+                perm = sim.shuffled(list(range(len(leaves))), "leaf-order")
+                sim.probe("leaves_listed_in_another_order")
+            else:
+                perm = list(range(len(leaves)))
+            vals_p = vals[perm]
+            leaves_p = [leaves[i] for i in perm]
+            leaf_ids_p = [leaf_ids[i] for i in perm]
+            iterate_checked(sim, m, vals_p, leaves_p, leaf_ids_p, internal, n, noc, L, plus, viable, ctx)
             sim.state(n, limit, plus, t, restarted)
             if twin is not None and twin is not m:
                 with sim.guard("C14.iteration_raised"):
-                    twin.regret_min_iteration(vals.copy(), leaves)
+                    twin.regret_min_iteration(vals_p.copy(), leaves_p)
                 compare_twins(sim, m, twin, ctx, f"after iteration {t}")
                 sim.probe("restart_then_iterate")
     finally:
